@@ -13,6 +13,11 @@ theorem Frame.refl (c : Core) : Frame c c := ⟨rfl, rfl, rfl⟩
 theorem Frame.trans {a b c : Core} (h1 : Frame a b) (h2 : Frame b c) : Frame a c :=
   ⟨h2.modules.trans h1.modules, h2.notebook.trans h1.notebook, h2.swStart.trans h1.swStart⟩
 
+theorem chainStep_frame (P : Params) (b : Block) (k : Cand) (ci : ChainInfo) (c : Core) : Frame c (chainStep P b k ci c) := by
+  simp only [chainStep]
+  repeat' split
+  all_goals exact ⟨rfl, rfl, rfl⟩
+
 theorem addCands_frame (P : Params) (cb : Nat → CbRet) (fast : Bool) (b : Block) (ks : List Cand) (c : Core) (w : World) :
     Frame c (addCands P cb fast b ks c w).1 := by
   induction ks generalizing c w with
@@ -24,6 +29,7 @@ theorem addCands_frame (P : Params) (cb : Nat → CbRet) (fast : Bool) (b : Bloc
       | exact ih _ _
       | exact ⟨rfl, rfl, rfl⟩
       | (refine Frame.trans ?_ (ih _ _); exact ⟨rfl, rfl, rfl⟩)
+      | exact Frame.trans (chainStep_frame ..) (ih _ _)
 
 theorem scanBlock_frame (P : Params) (cb : Nat → CbRet) (set : Settings) (b : Block) (c : Core) (w : World) :
     Frame c (scanBlock P cb set b c w).1 := by
